@@ -365,20 +365,32 @@ def _verify_one(args):
             seen_names[ob.name] = c + 1
             names.append(f"{ob.name}#{c + 1}" if c else ob.name)
 
+        inconclusive = [0]  # obligations of this function that stayed `unknown` after the full schedule (per guarded child)
+        inconclusive_bases = set()  # ... and their base names: the other paths (#k) of the same clause get the short attempt only
+
         def do_ob(k, hb):
             ob = _with_lemmas(obs[k])
             ob.name = names[k]
             hb(q)
             r = discharge(ob, q)
-            if r["status"] == "unknown":
+            if r["status"] == "unknown" and (inconclusive[0] >= 3 or _base(ob.name) in inconclusive_bases):
+                # three obligations of this function were already inconclusive after the long attempts: the function is evidently
+                # not the one of the baseline (or the machine is hopelessly overloaded) and the run's verdict no longer depends on
+                # the rest - they get the short attempt only, so that a run on a broken tree ends in minutes, not hours
+                r["reason"] = f"{r.get('reason')}; long attempts skipped (this clause on another path, or 3 obligations of this function, already inconclusive)"
+                r["backend"] = r["backend"] + "+short-only"
+            elif r["status"] == "unknown":
                 hb(th)
                 r = discharge(ob, th)
-            if r["status"] == "unknown" and _BASELINE.get(_base(f"{con.frame_name}::{ob.name}")) == "proved":
+            if r["status"] == "unknown" and inconclusive[0] < 3 and _BASELINE.get(_base(f"{con.frame_name}::{ob.name}")) == "proved":
                 # an obligation that was proved on the pinned tree and is merely inconclusive now (busy machine?) gets one
                 # generous last attempt before the baseline rule turns it into a VIOLATION
                 hb(4 * th)
                 r = discharge(ob, 4 * th)
                 r["backend"] = r["backend"] + "+retry"
+            if r["status"] == "unknown" and not r["backend"].endswith("+short-only"):
+                inconclusive[0] += 1
+                inconclusive_bases.add(_base(ob.name))
             rec = dict(name=f"{con.frame_name}::{ob.name}", kind=ob.kind, status=r["status"], backend=r["backend"],
                        time_s=round(r["time_s"], 4), where=ob.where)
             if ob.meta.get("lemma_instances"):
